@@ -191,3 +191,42 @@ func hasSuffixAny(s string, suf ...string) bool {
 }
 
 func sprintf(f string, a ...any) string { return fmt.Sprintf(f, a...) }
+
+// guardsOf returns the conditions of the if statements enclosing pos inside root, outermost first;
+// a condition is prefixed with "!(" ")" when pos lies in the else arm.
+func guardsOf(root ast.Node, pos token.Pos) []string {
+	var out []string
+	ast.Inspect(root, func(n ast.Node) bool {
+		if n == nil {
+			return true
+		}
+		if !(n.Pos() <= pos && pos < n.End()) {
+			return false
+		}
+		if is, ok := n.(*ast.IfStmt); ok {
+			switch {
+			case is.Body.Pos() <= pos && pos < is.Body.End():
+				out = append(out, strings.ReplaceAll(types.ExprString(is.Cond), " ", ""))
+			case is.Else != nil && is.Else.Pos() <= pos && pos < is.Else.End():
+				out = append(out, "!("+strings.ReplaceAll(types.ExprString(is.Cond), " ", "")+")")
+			}
+		}
+		return true
+	})
+	return out
+}
+
+// nospace renders an expression without blanks.
+func nospace(e ast.Expr) string { return strings.ReplaceAll(types.ExprString(e), " ", "") }
+
+// callsIn lists the calls (by callName) inside n, in source order.
+func callsIn(n ast.Node) []*ast.CallExpr {
+	var out []*ast.CallExpr
+	ast.Inspect(n, func(m ast.Node) bool {
+		if ce, ok := m.(*ast.CallExpr); ok {
+			out = append(out, ce)
+		}
+		return true
+	})
+	return out
+}
